@@ -11,6 +11,7 @@ import (
 
 	"github.com/drand/drand/v2/common"
 	"github.com/drand/drand/v2/crypto"
+	"github.com/drand/drand/v2/zzverif/cli"
 	"github.com/drand/drand/v2/zzverif/emit"
 	"github.com/drand/kyber/share"
 )
@@ -101,12 +102,23 @@ func Run(outDir string, seed int64, tier string) error {
 			summary := map[string]interface{}{"scenario": eo.Scenario, "epoch": eo.Epoch, "nodes": len(eo.Nodes), "expected": eo.Expected, "wall_s": eo.Wall, "bus": eo.Stats}
 			if eo.Err != "" {
 				summary["error"] = eo.Err
-				rep.Fail("dkg-did-not-complete", "a scheduled DKG did not complete on every participant (twice)", map[string]interface{}{"scenario": r.sc, "epoch": eo.Epoch, "error": eo.Err})
+				rep.Fail("dkg-did-not-complete", "a scheduled DKG did not complete on every participant (twice)", map[string]interface{}{"dropped_link": eo.Loss, "scenario": r.sc, "epoch": eo.Epoch, "error": eo.Err})
 				runs = append(runs, summary)
 				continue
 			}
 			monitorEpoch(rep, r.sc, &eo, g)
 			summary["signing_subsets"] = eo.Subsets
+			if eo.Loss != nil {
+				summary["dropped_link"] = eo.Loss
+				late := "lost"
+				if eo.Loss.Late {
+					late = "late"
+				}
+				rep.Count(fmt.Sprintf("run/one-%s-%s/to-rank%d-of-%d/epoch%d", late, eo.Loss.Kind, eo.Loss.ToRank, eo.Expected, eo.Epoch))
+				if eo.Loss.Hits == 0 {
+					rep.Count("run/scripted-fault-not-exercised")
+				}
+			}
 			// how far apart the nodes finish (the transition time of a resharing differs between
 			// two nodes exactly when a round boundary falls between their completion instants)
 			if len(eo.Nodes) > 1 && r.sc.Witness == "" {
@@ -129,6 +141,13 @@ func Run(outDir string, seed int64, tier string) error {
 	rep.Extra["runs"] = runs
 	rep.Extra["completion_spread_ms"] = spreads
 	rep.Extra["completion_spread_note"] = "F15: each node computes the transition time from its own clock when kyber returns; two nodes disagree exactly when a round boundary falls between their completion instants, i.e. with probability about spread/period per resharing (spreads measured above under the scripted delays); see known_witnesses for the deterministic replay"
+
+	// ---- T: the loops of broadcast.go that decide who is sent a bundle (premise of C06_echo_delivery) ----
+	shape, shapeDescr, err := echoShape(cli.Repo)
+	if err != nil {
+		return err
+	}
+	g.add("DEcho "+shape, shapeDescr, "echo-loops", "DEcho "+shape, true)
 
 	// ---- report ----
 	seen := map[string]bool{}
@@ -153,7 +172,7 @@ func Run(outDir string, seed int64, tier string) error {
 			}
 		}
 	}
-	rep.Rule = "pure: SortedByPublicKey on byte-string keys (corpus of prefix/high-byte/empty/duplicate keys, small alphabets, real keys), setupDKG and asGroup through the verif hooks on generated DBStates (1..7 participants from seeded key pools of each scheme, random Remaining/Joining split, QUAL subsets ascending or shuffled, stored/empty seed, decoy previous group, malformed stream: garbage/truncated/foreign-group keys, unknown scheme, out-of-range QUAL index, no participants); real: dkg.Process networks (bolt stores, real kyber DKG) over an in-memory bus with random per-message delays, duplicates and one slow node, first DKG + one resharing (same/add/remove), one finished-state case per node; distinct = distinct case text; non-trivial = at least two distinct keys / participants / QUAL members (real runs: n >= 2)"
+	rep.Rule = "pure: SortedByPublicKey on byte-string keys (corpus of prefix/high-byte/empty/duplicate keys, small alphabets, real keys), setupDKG and asGroup through the verif hooks on generated DBStates (1..7 participants from seeded key pools of each scheme, random Remaining/Joining split, QUAL subsets ascending or shuffled, stored/empty seed, decoy previous group, malformed stream: garbage/truncated/foreign-group keys, unknown scheme, out-of-range QUAL index, no participants); real: dkg.Process networks (bolt stores, real kyber DKG) over an in-memory bus with random per-message delays, duplicates, one slow node, one crashed node, and exactly one lost or late direct transmission of a deal/response bundle to each receiver rank in key order (sender chosen by the seed), first DKG + one resharing (same/add/remove), one finished-state case per node; distinct = distinct case text; non-trivial = at least two distinct keys / participants / QUAL members (real runs: n >= 2)"
 	if err := shard(rep, outDir, "cases_dkgrun", []string{"From DV Require Import Model.DKGExec Corr.DKGExecCorr."}, lines, descr, 60); err != nil {
 		return err
 	}
@@ -200,6 +219,19 @@ func scenarios(rng *rand.Rand, thorough bool) []scenario {
 	// node during the next one
 	staleReplay := scenario{Scheme: crypto.DefaultSchemeID, N: 3, Thr: 2, Period: 1000, Sched: none, Reshare: "same", Thr2: 2, Sched2: none,
 		Phase: 1500 * time.Millisecond, Witness: witnessStale}
+	// exactly one direct transmission is lost (or arrives after the phase): the echo broadcast of
+	// the other nodes must make up for it, whoever the receiver is in the canonical key order
+	lossy := func(n, t int, scheme, kind string, toRank, fromRank int, late bool, reshare string, thr2 int) scenario {
+		mk := func() schedule {
+			name := "one-lost-" + kind
+			if late {
+				name = "one-late-" + kind
+			}
+			return schedule{Name: fmt.Sprintf("%s-to%d", name, toRank), MaxDelay: 20 * time.Millisecond, SlowNode: -1,
+				Lose: &lostLink{Kind: kind, FromRank: fromRank, ToRank: toRank, Late: late}}
+		}
+		return scenario{Scheme: scheme, N: n, Thr: t, Period: 1000, Phase: 1500 * time.Millisecond, Sched: mk(), Reshare: reshare, Thr2: thr2, Sched2: mk()}
+	}
 	var scs []scenario
 	add := func(sc scenario) {
 		sc.BeaconID = []string{"default", "c06-net"}[len(scs)%2]
@@ -236,6 +268,14 @@ func scenarios(rng *rand.Rand, thorough bool) []scenario {
 		add(scenario{Scheme: crypto.DefaultSchemeID, N: 4, Thr: 4, Period: 600, Sched: jitter, Reshare: "same", Thr2: 3, Sched2: slowAll(1)})
 		add(crash(4, 3, crypto.SigsOnG1ID))
 		add(staleReplay)
+		// n = 3: every receiver (smallest, middle, largest key), sender chosen by the seed; first
+		// DKG and resharing; n = 4: the two largest keys, late instead of lost, a lost response
+		for to := 0; to < 3; to++ {
+			add(lossy(3, 2, []string{crypto.DefaultSchemeID, crypto.SigsOnG1ID}[to%2], "deal", to, rng.Intn(3), false, "same", 2))
+		}
+		add(lossy(4, 3, crypto.DefaultSchemeID, "deal", 3, rng.Intn(4), true, "add", 3))
+		add(lossy(4, 3, crypto.SigsOnG1ID, "deal", 2, rng.Intn(4), false, "same", 3))
+		add(lossy(3, 2, crypto.DefaultSchemeID, "response", 2, rng.Intn(3), false, "same", 2))
 		return scs
 	}
 	schemes := crypto.ListSchemes()
@@ -281,6 +321,12 @@ func scenarios(rng *rand.Rand, thorough bool) []scenario {
 	add(crash(5, 3, crypto.SigsOnG1ID))
 	add(crash(7, 4, crypto.UnchainedSchemeID))
 	add(staleReplay)
+	for n := 3; n <= 5; n++ {
+		for to := 0; to < n; to++ {
+			add(lossy(n, n/2+1, schemes[(n+to)%len(schemes)], "deal", to, rng.Intn(n), to%2 == 1, []string{"same", "add", "remove"}[(n+to)%3], n/2+1))
+			add(lossy(n, n/2+1, schemes[(n+to+1)%len(schemes)], "response", to, rng.Intn(n), false, "same", n/2+1))
+		}
+	}
 	return scs
 }
 
@@ -290,6 +336,9 @@ func monitorEpoch(rep *emit.Report, sc scenario, eo *epochObs, g *pureGen) {
 	obs := eo.Nodes
 	ctx := func(extra map[string]interface{}) map[string]interface{} {
 		m := map[string]interface{}{"scenario": sc, "epoch": eo.Epoch, "nodes": obs}
+		if eo.Loss != nil {
+			m["dropped_link"] = eo.Loss // the one faulty transmission of this run (sorts first in the printed input)
+		}
 		for k, v := range extra {
 			m[k] = v
 		}
